@@ -88,6 +88,7 @@ func init() {
 			return nil
 		},
 		zz + "AllocEnd": func(fr *frame, a []Value) Value { fr.x.allocLimit = 0; return nil },
+		zz + "SameNumber": inSameNumber,
 		zz + "Symbolic": func(fr *frame, a []Value) Value { return fr.x.f.Bool(true) },
 		zz + "SameBacking": func(fr *frame, a []Value) Value {
 			s1, s2 := a[0].(Slice), a[1].(Slice)
@@ -395,6 +396,7 @@ func (x *Exec) intToken(fr *frame, v *Term, signed bool) []*Term {
 	negbv := f.Ite(neg, f.Const(1, 1), f.Const(1, 0))
 	u := f.UF("tok_int", 8, negbv, mag)
 	d := f.Bin(OpAdd, f.Const(8, '0'), f.Bin(OpURem, u, f.Const(8, 10)))
+	x.tokens[d.id] = tokenInfo{kind: "int", neg: neg, mag: mag}
 	return []*Term{d}
 }
 
@@ -435,9 +437,11 @@ func inAppendFloat(fr *frame, a []Value) Value {
 		u := f.UF(name, 8, v, fmv, prec, bv)
 		return f.Bin(OpAdd, f.Const(8, '0'), f.Bin(OpURem, u, f.Const(8, 10)))
 	}
+	d0 := digit("tok_float")
+	x.tokens[d0.id] = tokenInfo{kind: "float", mag: v, bits: bits}
 	switch fm {
 	case 'f':
-		return x.appendBytes(fr, a[0], []*Term{digit("tok_float")})
+		return x.appendBytes(fr, a[0], []*Term{d0})
 	case 'e':
 		sign := f.Ite(f.Eq(f.UF("tok_fsign", 1, v, fmv, prec, bv), f.Const(1, 1)), f.Const(8, '-'), f.Const(8, '+'))
 		three := f.Eq(f.UF("tok_f3", 1, v, fmv, prec, bv), f.Const(1, 1))
@@ -452,6 +456,13 @@ func inAppendFloat(fr *frame, a []Value) Value {
 	}
 	abortf("AppendFloat fmt %c unsupported", fm)
 	return nil
+}
+
+type tokenInfo struct {
+	kind string
+	neg  *Term
+	mag  *Term
+	bits int
 }
 
 type floatCall struct {
@@ -545,4 +556,31 @@ func inIndexByte(fr *frame, a []Value) Value {
 		}
 	}
 	return x.f.Const(64, ^uint64(0))
+}
+
+// inSameNumber: do two rendered JSON numbers denote the same value? Opaque number tokens are
+// compared through the values they were rendered from (integers: sign and magnitude; floats: the
+// bit pattern and bit size, whatever the format); concrete texts are parsed.
+func inSameNumber(fr *frame, a []Value) Value {
+	x := fr.x
+	ba, bb := x.bytesOf(a[0]), x.bytesOf(a[1])
+	if len(ba) == 0 || len(bb) == 0 {
+		return x.f.Bool(false)
+	}
+	sa, oka := concreteString(Str{ba})
+	sb, okb := concreteString(Str{bb})
+	if oka && okb {
+		fa, e1 := strconv.ParseFloat(sa, 64)
+		fb, e2 := strconv.ParseFloat(sb, 64)
+		return x.f.Bool(e1 == nil && e2 == nil && fa == fb)
+	}
+	ta, ha := x.tokens[ba[0].id]
+	tb, hb := x.tokens[bb[0].id]
+	if !ha || !hb || ta.kind != tb.kind {
+		return x.f.Bool(false)
+	}
+	if ta.kind == "int" {
+		return x.f.And(x.f.Eq(ta.neg, tb.neg), x.f.Eq(ta.mag, tb.mag))
+	}
+	return x.f.And(x.f.Bool(ta.bits == tb.bits), x.f.Eq(ta.mag, tb.mag))
 }
